@@ -369,6 +369,10 @@ class Builtins:
 
     def _compare(self, st, op, a, b):
         X = self.X
+        from . import npmodel
+
+        if (npmodel.is_arr(st, a) or npmodel.is_arr(st, b)) and not isinstance(op, (ast.Is, ast.IsNot, ast.In, ast.NotIn)):
+            return npmodel.compare(X, st, op, a, b)
         if isinstance(op, (ast.Is, ast.IsNot)):
             r = self.identical(st, a, b)
             return [Res(st, VBool(r if isinstance(op, ast.Is) else z3.Not(r)))]
@@ -409,6 +413,12 @@ class Builtins:
         raise Unsupported(f"compare {type(op).__name__} {a!r} {b!r}")
 
     def identical(self, st, a, b):
+        for x, y in ((a, b), (b, a)):
+            if isinstance(x, VBuiltin) and x.name == "child.transform":
+                g = st.heap.get("__globals__", {})
+                if isinstance(y, VObj) and y.oid == g.get("identity"):
+                    return z3.Function("count_identity", core.View, z3.BoolSort())(st.view(x.self_v.ref))
+                raise Unsupported("identity of a child's transform")
         if isinstance(a, VNone) or isinstance(b, VNone):
             return z3.BoolVal(isinstance(a, VNone) and isinstance(b, VNone))
         if isinstance(a, VObj) and isinstance(b, VObj):
@@ -580,6 +590,10 @@ class Builtins:
 
     def _binop(self, st, op, a, b):
         X = self.X
+        from . import npmodel
+
+        if npmodel.is_arr(st, a) or npmodel.is_arr(st, b):
+            return npmodel.binop(X, st, op, a, b)
         fa, fb = self.num(a), self.num(b)
         if fa is not None and fb is not None:
             both_int = isinstance(a, (VInt, VBool)) and isinstance(b, (VInt, VBool))
@@ -729,6 +743,10 @@ class Builtins:
 
     def _getitem(self, st, a, i):
         X = self.X
+        from . import npmodel
+
+        if npmodel.is_arr(st, a):
+            return npmodel.getitem(X, st, a, i)
         if isinstance(a, VTuple) or (isinstance(a, VObj) and isinstance(st.obj(a), CList)):
             items = a.items if isinstance(a, VTuple) else list(st.obj(a).items)
             if isinstance(i, VBool):
@@ -876,6 +894,10 @@ class Builtins:
 
     def setitem(self, st, a, i, v):
         X = self.X
+        from . import npmodel
+
+        if npmodel.is_arr(st, a):
+            return npmodel.setitem(X, st, a, i, v)
         if isinstance(a, VObj):
             o = st.obj(a)
             if isinstance(o, CList):
@@ -945,6 +967,10 @@ class Builtins:
         return LDict(present, val, z3.IntVal(len(items)))
 
     def setslice(self, st, a, slc, v):
+        from . import npmodel
+
+        if npmodel.is_arr(st, a) and slc.lower is None and slc.upper is None and slc.step is None:
+            return npmodel.setslice(self.X, st, a, v)
         raise Unsupported("slice assignment")
 
     def delitem(self, st, a, i):
@@ -1048,7 +1074,9 @@ class Builtins:
             if n == "type.set":
                 return z3.BoolVal(isinstance(v, VObj) and isinstance(st.obj(v), (CSet, LSet)))
             if n in ("numpy.ndarray", "np.ndarray", "numpy.number", "np.number"):
-                return z3.BoolVal(isinstance(v, VOpq) and v.tag == "ndarray") if "ndarray" in n else z3.BoolVal(False)
+                from . import npmodel
+
+                return z3.BoolVal(npmodel.is_arr(st, v)) if "ndarray" in n else z3.BoolVal(isinstance(v, VFl) and v.pytype == "npfloat")
             if n == "types.FunctionType":
                 return z3.BoolVal(isinstance(v, (VLambda, VFunc)) or (isinstance(v, VOpq) and v.tag == "function"))
             if n == "pyspark.sql.column.Column":
@@ -1107,6 +1135,21 @@ class Builtins:
                 t = pair(t, d2)
             args = [VOpq(t, "datum")]
         arg = args[0]
+        if isinstance(arg, VOpq) and arg.tag == "batch":
+            # vectorised call (A-USERFN for arrays): element i is the function's value on row i
+            from . import npmodel
+
+            n = z3.Function("batchlen", core.Datum, z3.IntSort())(arg.t)
+            st.add(n >= 0)
+            i = z3.Int(f"ufi!{core.uid()}")
+
+            def fl_at(j):
+                d_ = npmodel.rowof(arg.t, j)
+                return Fl(uf_nan(e, d_), uf_pinf(e, d_), uf_ninf(e, d_), uf_r(e, d_))
+
+            st.forall(i, z3.And(i >= 0, i < n), fl_at(i).wf(), name="userfn-array-wf", base_only=True)
+            st.events.append(("userfn", "batch"))
+            return [Res(st, npmodel.new_arr(st, n, lambda j: VFl(fl_at(j), "float"), "float"))]
         if isinstance(arg, VOpq) and arg.tag == "datum":
             d = arg.t
         elif self.num(arg) is not None:
@@ -1175,6 +1218,10 @@ class Builtins:
             return self.construct_builtin(st, n[5:], args, kwargs)
         if n.startswith("obj."):
             return self.obj_method(st, fv.self_v, n[4:], args, kwargs)
+        if n.startswith("arr."):
+            from . import npmodel
+
+            return npmodel.method(X, st, fv.self_v, n[4:], args, kwargs)
         if n.startswith("val."):
             return self.val_method(st, fv.self_v, n[4:], args, kwargs)
         if n.startswith("iter."):
@@ -1290,8 +1337,6 @@ class Builtins:
             return self.X.raise_(st, "TypeError", "isnan")
         return [Res(st, VBool(f.nan))]
 
-    bi_np_isnan = bi_math_isnan
-    bi_numpy_isnan = bi_math_isnan
 
     def bi_math_isinf(self, st, fv, args, kw):
         f = self.num(args[0])
@@ -1527,10 +1572,12 @@ class Builtins:
 
     # ---- methods on objects
     def obj_method(self, st, selfv, name, args, kw):
-        from . import loops
+        from . import loops, npmodel
 
         X = self.X
         o = st.obj(selfv)
+        if isinstance(o, npmodel.ArrO):
+            return npmodel.method(X, st, selfv, name, args, kw)
         if isinstance(o, (CDict, LDict)):
             if name == "keys":
                 return [Res(st, VIter("keys", selfv))]
